@@ -1,5 +1,6 @@
 SPECIFICATION Spec
 CONSTANTS MaxInputs = 4
+ MaxInputsEach = 4
  Kinds = {"A", "B", "U", "M", "D"}
  ProgSet = {"id", "failB", "nocompile", "collect", "haltB"}
  Modes = {"each", "slurp", "raw", "rawslurp"}
